@@ -180,7 +180,7 @@ class Unit:
             if not f:
                 continue
             rf = os.path.realpath(f) if os.path.isabs(f) else os.path.realpath(os.path.join(SRC, f))
-            if not rf.startswith(srcprefix):
+            if not rf.startswith(srcprefix) and rf != os.path.realpath(path):
                 continue
             d['_file'] = rf
             self.decls.append(d)
